@@ -168,3 +168,13 @@ def run(tier, seed, build):
     rep.assumptions += ["matrix congruence / scaling => equal / scaled eigenvalues (cited, not mechanised); additionally observed",
                         "numerically integrated kernels judged at 2^-34 of the term magnitude (Gauss quadrature sums)"]
     return rep.finish()
+
+
+def replay(path, build):
+    """the stored replay file holds the failing definition/behaviour; the check is deterministic in VERIF_SEED, so the
+    violation is re-decided by re-running the tier that found it with the same seed"""
+    import json
+    import os
+    rp = json.load(open(path))
+    print("replaying %s: %s" % (rp.get("property"), str(rp.get("what"))[:300]))
+    return run(os.environ.get("VERIF_TIER", "quick"), int(os.environ.get("VERIF_SEED", "20261003")), build)
